@@ -20,7 +20,11 @@ pub fn rewrite_item(item: &mut Item, unit: &Unit, log: &mut Log, lifted: &mut Ve
                 subst_generics_type(&mut f.ty, unit);
             }
             apply_generic_subst_generics(&mut s.generics, unit);
-            drop_lifetimes_if_empty(&mut s.generics);
+            let lt: Vec<String> = unit.opts.get("struct_lifetime").and_then(|v| v.as_array()).map(|a| a.iter().filter_map(|x| x.as_str().map(|s| s.to_string())).collect()).unwrap_or_default();
+            if lt.iter().any(|n| s.ident == n) {
+                s.generics = parse_quote!(<'a>);
+                log.entries.push(("R14".into(), s.ident.to_string(), "generic struct instantiated at its reference instantiation; lifetime parameter added".into()));
+            }
         }
         Item::Enum(e) => {
             clean_attrs(&mut e.attrs, true, log, &e.ident.to_string());
@@ -238,11 +242,12 @@ pub struct Body<'a> {
     closure_counter: usize,
     lifted: &'a mut Vec<Item>,
     rev_ranges: Vec<(String, Expr, Expr)>,
+    find_counter: usize,
 }
 
 impl<'a> Body<'a> {
     pub fn new(unit: &'a Unit, log: &'a mut Log, func: String, lifted: &'a mut Vec<Item>) -> Self {
-        Body { unit, log, func, counter: 0, closure_counter: 0, lifted, rev_ranges: vec![] }
+        Body { unit, log, func, counter: 0, closure_counter: 0, lifted, rev_ranges: vec![], find_counter: 0 }
     }
 
     fn note(&mut self, rule: &str, detail: String) {
@@ -489,6 +494,34 @@ impl<'a> Body<'a> {
                 }
                 vec![stmt]
             }
+            Stmt::Expr(Expr::Match(mx), semi) => {
+                if let Some((src, param, pred)) = as_iter_find(&mx.expr) {
+                    let k = self.fresh();
+                    let (found, i) = (ident(&format!("__found{k}")), ident(&format!("__i{k}")));
+                    let mut m2 = mx.clone();
+                    m2.expr = Box::new(parse_expr(quote!(#found)));
+                    let tail = Stmt::Expr(Expr::Match(m2), *semi);
+                    self.note("R16", format!("{}.iter().find(|{}| ..) -> first-match loop", src.to_token_stream(), param));
+                    // element type from the unit file (validated by rustc: a wrong type does not compile)
+                    let short = self.func.rsplit("::").next().unwrap().to_string();
+                    let tys: Vec<String> = self.unit.opts.get("find_types").and_then(|v| v.as_table()).and_then(|t| t.get(&short)).and_then(|v| v.as_array())
+                        .map(|a| a.iter().filter_map(|x| x.as_str().map(|s| s.to_string())).collect()).unwrap_or_default();
+                    let ord = self.find_counter;
+                    self.find_counter += 1;
+                    let ty: Type = match tys.get(ord) {
+                        Some(t) => syn::parse_str(&format!("Option<{t}>")).unwrap_or_else(|e| fail(&format!("bad find_types: {e}"))),
+                        None => parse_quote!(Option<_>),
+                    };
+                    let mut v = parse_stmts(quote!(
+                        let mut #found: #ty = None;
+                        let mut #i = 0;
+                        while #i < #src.len() { let #param = &#src[#i]; if #pred { #found = Some(#param); break; } #i += 1; }
+                    ));
+                    v.push(tail);
+                    return v;
+                }
+                vec![stmt]
+            }
             Stmt::Local(l) => {
                 // remember `let X = (a..b).rev();`
                 if let (Pat::Ident(pi), Some(init)) = (&l.pat, &l.init) {
@@ -501,6 +534,18 @@ impl<'a> Body<'a> {
             Stmt::Expr(Expr::MethodCall(mc), Some(_)) => {
                 if let Some(v) = self.rule_extend_map(mc) {
                     return v;
+                }
+                // R17b: `x.m(|..| ..);` -> `let __cloK = |..| ..; x.m(__cloK);` when the unit file asks for it
+                let key = format!("{}#{}", self.func.rsplit("::").next().unwrap(), self.closure_counter);
+                if self.unit.closure_sig.get(&key).map(|c| c.bind).unwrap_or(false) && mc.args.len() == 1 {
+                    if let Expr::Closure(_) = &mc.args[0] {
+                        let name = ident(&format!("__clo{}", self.closure_counter));
+                        let clo = &mc.args[0];
+                        let recv = &mc.receiver;
+                        let m = &mc.method;
+                        self.note("R17", format!("closure {key} bound to a local before the call"));
+                        return parse_stmts(quote!( let #name = #clo; #recv.#m(#name); ));
+                    }
                 }
                 vec![stmt]
             }
@@ -680,6 +725,24 @@ fn as_rev_range(e: &Expr) -> Option<(Expr, Expr)> {
         return None;
     }
     Some(((**r.start.as_ref()?).clone(), (**r.end.as_ref()?).clone()))
+}
+
+/// S.iter().find(|m| P)  ->  (S, m, P)
+fn as_iter_find(e: &Expr) -> Option<(Expr, Ident, Expr)> {
+    let Expr::MethodCall(f) = e else { return None };
+    if f.method != "find" || f.args.len() != 1 {
+        return None;
+    }
+    let Expr::MethodCall(it) = &*f.receiver else { return None };
+    if it.method != "iter" || !it.args.is_empty() {
+        return None;
+    }
+    let Expr::Closure(cl) = &f.args[0] else { return None };
+    if cl.inputs.len() != 1 {
+        return None;
+    }
+    let Pat::Ident(pi) = &cl.inputs[0] else { return None };
+    Some(((*it.receiver).clone(), pi.ident.clone(), (*cl.body).clone()))
 }
 
 fn is_simple(e: &Expr) -> bool {
